@@ -107,6 +107,22 @@ def case_deferred(seed, out, spec, wd, idx):
     rig = Rig(custom={'APP_ROOT': sub}, host_dir=sub,
               plugins=[plugins.RecSpans(), plugins.RecDecorator()])
     rig.install(trigs)
+    if r.chance(0.2):
+        # the first hand-over of a snapshot fails (delivery closed / queue full): it must not be handed over again
+        failed_once = []
+
+        refusal = r.pick(['exception', 'closed'])
+
+        def fail_first(snapshot):
+            if not failed_once:
+                failed_once.append(snapshot.id_str)
+                if refusal == 'closed':
+                    # what the agent's own task handler raises once it has been flushed (not an Exception subclass)
+                    from deep.task import IllegalStateException
+                    raise IllegalStateException()
+                raise RuntimeError('delivery refused')
+
+        rig.push.fail = fail_first
     stacks = {}        # tid -> [Inv]
     invs = []          # all invocations
     by_event_inv = {}  # ev.seq -> Inv active at that event
